@@ -14,7 +14,7 @@ from .. import apiscan
 from ..alg import is_zero
 
 BM = "typhon/retrieval/bmci/bmci.py"
-EXPECT = {"C18.perm": 4, "C18.window": 7, "C18.weights": 2, "C18.moments": 2, "C18.slice": 6, "C18.nan": 4, "C18.cdf": 3}
+EXPECT = {"C18.args": 4, "C18.perm": 4, "C18.window": 7, "C18.weights": 2, "C18.moments": 2, "C18.slice": 6, "C18.nan": 4, "C18.cdf": 3}
 
 
 def _self_assigns(f):
@@ -586,3 +586,6 @@ def rule_cdf(ctx):
 def run(ctx):
     for r in (rule_perm, rule_window, rule_weights, rule_moments, rule_slice, rule_nan, rule_cdf):
         ctx.attempt(r, ctx)
+    # the caller's arguments (arrays, filter / fill dictionaries) are not modified: an in-place update makes the next call on the same objects wrong
+    from ..purity import rule_pure as _rule_args
+    ctx.attempt(_rule_args, ctx, "C18.args", [('typhon/retrieval/bmci/bmci.py', 'BMCI.predict'), ('typhon/retrieval/bmci/bmci.py', 'BMCI.weights'), ('typhon/retrieval/bmci/bmci.py', 'BMCI.cdf'), ('typhon/retrieval/bmci/bmci.py', 'BMCI.predict_quantiles')], "the caller's arguments are not modified in place")
